@@ -5,6 +5,7 @@ Property statements only (proofs are one-line references into `Lemmas/AcceptEnco
 Specification: `Spec/Rfc7231.lean` (`AeElem`, `renderAe`, `specGzip`).
 -/
 import HttpServeModel.Lemmas.AcceptEncoding
+import HttpServeModel.Lemmas.QvalueSound
 
 namespace HS
 
@@ -44,6 +45,15 @@ theorem C16_only_other_codings (l : List AeElem) (h : ∀ e ∈ l, e.wf)
 /-- The qvalue grammar is parsed exactly. -/
 theorem C16_qvalue (q : QVal) (h : q.wf) : parseQvalue q.render = .ok (some q.value) :=
   parseQvalue_render q h
+
+/-- ... and conversely: whatever the qvalue parser accepts is a grammatical qvalue with exactly
+that weight — except for the one leniency that `u16::from_str` admits a `+` sign after `0.`
+(`0.+5`), which can only make an UNgrammatical header parse. Every accepted weight is ≤ 1000. -/
+theorem C16_qvalue_sound (s : Bytes) (v : Nat) (h : parseQvalue s = .ok (some v)) :
+    ((∃ q : QVal, q.wf ∧ s = q.render ∧ v = q.value) ∨
+     (∃ ds : Bytes, s = [48, 46, 43] ++ ds ∧ 1 ≤ ds.length ∧ ds.length ≤ 2 ∧ allDigits ds = true)) ∧
+    v ≤ 1000 :=
+  ⟨parseQvalue_sound s v h, parseQvalue_range s v h⟩
 
 /-- No header value — any bytes at all — makes `should_gzip` panic. -/
 theorem C16_total (ae : Option Bytes) : shouldGzip ae ≠ .panic := shouldGzip_total ae
